@@ -34,17 +34,26 @@ fn write_file
 )
 -> Result<(), ReadWriteError>
 {
-    match system.create_file(file_path)
+    /*  Write the content to a temporary file and then move that into place, so that if the
+        program is interrupted, the file at file_path is never left empty or half-written. */
+    let temp_path = format!("{}.tmp", file_path);
+    match system.create_file(&temp_path)
     {
         Ok(mut file) =>
         {
             match file.write_all(&content)
             {
-                Ok(_) => return Ok(()),
+                Ok(_) => {},
                 Err(error) => return Err(ReadWriteError::IOError(format!("{}", error))),
             }
         }
         Err(error) => return Err(ReadWriteError::SystemError(error)),
+    }
+
+    match system.rename(&temp_path, file_path)
+    {
+        Ok(_) => Ok(()),
+        Err(error) => Err(ReadWriteError::SystemError(error)),
     }
 }
 
